@@ -240,10 +240,11 @@ Definition rad_cbca_M (G : cfg) (dist : Z) : radii :=
 Definition rad_xcheck_margin (G : cfg) : radii :=
   let h := MatchingCost.offset (g_w G) in mkRad h (Z.max h (dspan G)) (Z.max h (dspan G)).
 
-(* ------------------------------------------------------------------ pipelines of the modelled steps *)
+(* ------------------------------------------------------------------ pipelines of the local steps *)
 
 Inductive step : Type :=
 | SMc (m : mmeas)
+| SCbca (dist : Z) (inten : Q)
 | SWta (mx : bool) (invalid : option Q)
 | SRefine (me : Refine.method) (m : Refine.measure)
 | SMedian (w : Z)
@@ -258,6 +259,7 @@ Record env : Type := mkEnvL {
 Definition step_op (V : env) (s : step) : op pix pix :=
   match s with
   | SMc m => mc_step m (e_flags V) (e_cfg V)
+  | SCbca dist inten => cbca_step dist inten (e_cfg V)
   | SWta mx invalid => wta_step mx (e_bwta V) invalid (e_cfg V)
   | SRefine me m => refine_step (e_refine V) me m (e_cfg V)
   | SMedian w => median_step (e_inv V) (e_bmed V) w
@@ -268,65 +270,74 @@ Definition step_op (V : env) (s : step) : op pix pix :=
 (* window of the bilateral filter: int(3 * sigma_space + 1) *)
 Definition bil_win (sigma_space : Q) : Z := Qfloor (3 * sigma_space + 1).
 
-(* data cone and margin of each step *)
-Definition step_D (G : cfg) (s : step) : radii :=
+(* the radii of every local step kind (what the harness computes with: [kpipe_rad], extracted) *)
+Inductive kstep : Type :=
+| KMc                  (* matching cost, any measure: window + disparity span, on the images *)
+| KCbca (dist : Z)     (* cbca: arms of at most max(cbca_distance - 1, 1) pixels; 3x3 median pre-filter *)
+| KPoint               (* winner-takes-all, refinement *)
+| KFilter (w : Z)      (* median filter_size, bilateral window int(3 sigma_space + 1) *)
+| KXcheck.
+Definition forget (s : step) : kstep :=
   match s with
-  | SMc _ => rad_mc G
-  | SWta _ _ | SRefine _ _ => rad0
-  | SMedian w => rad_filter w
-  | SBilateral sigma _ _ => rad_filter (bil_win sigma)
-  | SXcheck _ => rad_xcheck G
+  | SMc _ => KMc | SCbca dist _ => KCbca dist | SWta _ _ | SRefine _ _ => KPoint | SMedian w => KFilter w
+  | SBilateral sigma _ _ => KFilter (bil_win sigma) | SXcheck _ => KXcheck
   end.
-Definition step_M (G : cfg) (s : step) : radii :=
-  match s with
-  | SXcheck _ => rad_xcheck_margin G
-  | _ => step_D G s
+
+(* per step: the cone of the STATES it reads (products of earlier steps), the cone of the IMAGES it reads itself,
+   the margin (how far the pixel must be from the sides of the raster) *)
+Definition kstep_S (G : cfg) (k : kstep) : radii :=
+  match k with
+  | KMc => rad0
+  | KCbca dist => rad_cbca_S dist
+  | KPoint => rad0
+  | KFilter w => rad_filter w
+  | KXcheck => rad_xcheck G
   end.
+Definition kstep_I (G : cfg) (k : kstep) : radii :=
+  match k with
+  | KMc => rad_mc G
+  | KCbca dist => rad_cbca_I G dist
+  | _ => rad0
+  end.
+Definition kstep_M (G : cfg) (k : kstep) : radii :=
+  match k with
+  | KMc => rad_mc G
+  | KCbca dist => rad_cbca_M G dist
+  | KXcheck => rad_xcheck_margin G
+  | _ => kstep_S G k
+  end.
+Definition step_S (G : cfg) (s : step) : radii := kstep_S G (forget s).
+Definition step_I (G : cfg) (s : step) : radii := kstep_I G (forget s).
+Definition step_M (G : cfg) (s : step) : radii := kstep_M G (forget s).
+
 Definition step_side (G : cfg) (s : step) : side pix :=
   match s with
   | SXcheck _ => fun F r c => px_ok G (f_at F r c)
   | _ => no_side
   end.
 
-(* cone and margin of a pipeline (first step first): cones add; the margin of "s then rest" is the larger
-   of the margin of rest and the cone of rest plus the margin of s *)
-Fixpoint pipe_rad (G : cfg) (steps : list step) : radii * radii :=
-  match steps with
-  | [] => (rad0, rad0)
-  | s :: rest => let '(Ds, Ms) := pipe_rad G rest in (radd Ds (step_D G s), rmax Ms (radd Ds (step_M G s)))
+(* cones and margin of a pipeline (first step first).  State cones add; the image cone of "s then rest" is the
+   larger of the image cone of rest and the state cone of rest plus the image cone of s; likewise the margin *)
+Definition rad3 : Type := radii * radii * radii.
+Fixpoint kpipe_rad3 (G : cfg) (ks : list kstep) : rad3 :=
+  match ks with
+  | [] => (rad0, rad0, rad0)
+  | k :: rest =>
+      let '(DSs, DIs, Ms) := kpipe_rad3 G rest in
+      (radd DSs (kstep_S G k), rmax DIs (radd DSs (kstep_I G k)), rmax Ms (radd DSs (kstep_M G k)))
   end.
+Definition pipe_rad3 (G : cfg) (steps : list step) : rad3 := kpipe_rad3 G (map forget steps).
+Definition r3_S (t : rad3) : radii := fst (fst t).
+Definition r3_I (t : rad3) : radii := snd (fst t).
+Definition r3_M (t : rad3) : radii := snd t.
+
+(* the dependency cone of a pixel (all the data its result is a function of) and the margin *)
+Definition kpipe_rad (G : cfg) (ks : list kstep) : radii * radii :=
+  let t := kpipe_rad3 G ks in (rmax (r3_S t) (r3_I t), r3_M t).
+Definition pipe_rad (G : cfg) (steps : list step) : radii * radii := kpipe_rad G (map forget steps).
+
 Fixpoint pipe_side (V : env) (steps : list step) : side pix :=
   match steps with
   | [] => no_side
-  | s :: rest => side_comp (step_side (e_cfg V) s) (step_op V s) (pipe_side V rest) (fst (pipe_rad (e_cfg V) rest))
-  end.
-
-(* ------------------------------------------------------------------ radii of every local step kind,
-   including those whose locality is not proved at model level (census, zncc: proved on the spec;
-   cbca: compared by the metamorphic runs only): what the harness uses *)
-Inductive kstep : Type :=
-| KMc            (* any measure: window + disparity span *)
-| KCbca (dist : Z)     (* arms (at most cbca_distance) on the 3x3-median-filtered images *)
-| KPoint         (* winner-takes-all, refinement *)
-| KFilter (w : Z)      (* median filter_size, bilateral window int(3 sigma_space + 1) *)
-| KXcheck.
-Definition forget (s : step) : kstep :=
-  match s with
-  | SMc _ => KMc | SWta _ _ | SRefine _ _ => KPoint | SMedian w => KFilter w
-  | SBilateral sigma _ _ => KFilter (bil_win sigma) | SXcheck _ => KXcheck
-  end.
-Definition kstep_D (G : cfg) (k : kstep) : radii :=
-  match k with
-  | KMc => rad_mc G
-  | KCbca dist => mkRad (dist + 1) (dist + 1) (dist + 1)
-  | KPoint => rad0
-  | KFilter w => rad_filter w
-  | KXcheck => rad_xcheck G
-  end.
-Definition kstep_M (G : cfg) (k : kstep) : radii :=
-  match k with KXcheck => rad_xcheck_margin G | _ => kstep_D G k end.
-Fixpoint kpipe_rad (G : cfg) (ks : list kstep) : radii * radii :=
-  match ks with
-  | [] => (rad0, rad0)
-  | k :: rest => let '(Ds, Ms) := kpipe_rad G rest in (radd Ds (kstep_D G k), rmax Ms (radd Ds (kstep_M G k)))
+  | s :: rest => side_comp (step_side (e_cfg V) s) (step_op V s) (pipe_side V rest) (r3_S (pipe_rad3 (e_cfg V) rest))
   end.
